@@ -825,6 +825,35 @@ def r01_13(ctx):
     delegate(ctx, c03.r03_7, lambda c: "_has_active_indirect_set assigned on every path" in c)
 
 
+def r01_14(ctx):
+    """R01.14 numbers are compared as numbers: in expr_value() the lexicographic comparison `_strcmp(..)` is reached only when both
+    operands are strings, or in the handler of a failed number conversion - never for a whole class of relations (`=`/`!=` decided by
+    spelling makes `ADDR = 0x1f` false for the value 0x1F, and `COUNT != 7` true for 007: a hidden option's user value leaks out)."""
+    from .common import facts_imply
+    repo = ctx.repo
+    f = repo.func(f"{CORE}:expr_value")
+    ctx.analysed(f.qual)
+    res = Resolver(f.node)
+    fl = Flow(f.node, resolver=res).run()
+    calls = [n for n in ast.walk(f.node) if isinstance(n, ast.Call) and ast.unparse(n.func) == "_strcmp"]
+    if len(calls) < 2:
+        raise AnalysisError(f"only {len(calls)} lexicographic comparisons in expr_value")
+    for i, c in enumerate(calls):
+        construct = f"expr_value/lexicographic comparison #{i + 1} only for two strings or after a failed number conversion"
+        p = repo.parent(c)
+        in_handler = False
+        while p is not None and p is not f.node:
+            if isinstance(p, ast.ExceptHandler):
+                in_handler = True
+            p = repo.parent(p)
+        gs = fl.guards_at(c) or set()
+        keys = {k for k, _ in gs}
+        both = [k for k in keys if "orig_type == STRING" in k]
+        ok = in_handler or (facts_imply(gs, " and ".join(sorted(both))) if len(both) >= 2 else False)
+        (ctx.ok(construct, f.loc(c)) if ok else
+         ctx.bad(construct, f"`{ast.unparse(c)[:50]}` is reached under {sorted(gs)}: operands that are numbers are compared by their spelling", f.loc(c)))
+
+
 def rules():
-    return [("R01.13", r01_13, 3), ("R01.12", r01_12, 8), ("R01.11", r01_11, 1), ("R01.10", r01_10, 2), ("R01.9", r01_9, 10), ("R01.1", r01_1, 9), ("R01.2", r01_2, 5), ("R01.3", r01_3, 5), ("R01.4", r01_4, 12), ("R01.5", r01_5, 7),
+    return [("R01.14", r01_14, 2), ("R01.13", r01_13, 3), ("R01.12", r01_12, 8), ("R01.11", r01_11, 1), ("R01.10", r01_10, 2), ("R01.9", r01_9, 10), ("R01.1", r01_1, 9), ("R01.2", r01_2, 5), ("R01.3", r01_3, 5), ("R01.4", r01_4, 12), ("R01.5", r01_5, 7),
             ("R01.6", r01_6, 5), ("R01.7", r01_7, 4), ("R01.8", r01_8, 14)]
